@@ -24,7 +24,9 @@ STREAM_KINDS = {
     "xdma-rescale-down": ("snax_xdma", "i32", "i8", RESCALE.format(i="i32", o="i8")),
     "alu-add": ("snax_alu", "i32", "i32", "kernel.add %x, %x : i32, i32 -> i32"),
     "xdma-plain": ("snax_xdma", "i32", "i32", None),  # all extensions bypassed: a plain transfer without a kernel
-    "xdma-mul": ("snax_xdma", "i32", "i32", "kernel.mul %x, %x : i32, i32 -> i32"),  # a kernel no streamer extension provides: compute work
+    "xdma-mul": ("snax_xdma", "i32", "i32", "kernel.mul %x, %x : i32, i32 -> i32"),
+    # a fused region: an extension kernel followed by one that no extension provides (one accelerator op: exactly one core)
+    "xdma-fused": ("snax_xdma", "i32", "i32", ("kernel.add %x, %x : i32, i32 -> i32", "kernel.mul %y, %y : i32, i32 -> i32")),  # a kernel no streamer extension provides: compute work
 }
 
 
@@ -35,6 +37,16 @@ def stream_text(s):
         return (
             f'"dart.operation"({src}, {dst}) <{{patterns = [affine_map<(d0) -> (d0)>, affine_map<(d0) -> (d0)>], accelerator = "{acc}", operandSegmentSizes = array<i32: 1, 1>}}> ({{\n'
             f"^bb0(%si : !dart.stream<{it}>, %so : !dart.stream<{ot}>):\n  dart.yield %si : !dart.stream<{it}>\n"
+            f'}}) {{vtag = {s["tag"]} : i64}} : (memref<8x{it}, "L1">, memref<8x{ot}, "L1">) -> ()'
+        )
+    if isinstance(kern, tuple):
+        k1, k2 = kern
+        return (
+            f'"dart.operation"({src}, {dst}) <{{patterns = [affine_map<(d0) -> (d0)>, affine_map<(d0) -> (d0)>], accelerator = "{acc}", operandSegmentSizes = array<i32: 1, 1>}}> ({{\n'
+            f"^bb0(%si : !dart.stream<{it}>, %so : !dart.stream<{ot}>):\n"
+            f'  %sm = "dart.generic"(%si) ({{\n  ^bb1(%x : {it}):\n    %r = {k1}\n    dart.yield %r : {it}\n  }}) : (!dart.stream<{it}>) -> !dart.stream<{it}>\n'
+            f'  %sr = "dart.generic"(%sm) ({{\n  ^bb2(%y : {it}):\n    %q = {k2}\n    dart.yield %q : {ot}\n  }}) : (!dart.stream<{it}>) -> !dart.stream<{ot}>\n'
+            f"  dart.yield %sr : !dart.stream<{ot}>\n"
             f'}}) {{vtag = {s["tag"]} : i64}} : (memref<8x{it}, "L1">, memref<8x{ot}, "L1">) -> ()'
         )
     return (
